@@ -1436,14 +1436,19 @@ def step (w : World) : Op → World × Res
     let r := reload (w.get t) d
     ((w.put t r.1).pushRemoved r.2.2, r.2.1)
   | .reopen ds fg thenAnchor =>
-    let gl : Nat → Glyph := fun i => (readInto {} (ds[i]?.getD {})).1
-    let font : Glyph := (appendGuideDicts {} fg).1
-    let w1 := { w with conts := [gl 0, gl 1, gl 2, font] }
-    match thenAnchor with
-    | none => (w1, .ok)
-    | some (t, x) =>
-      let g := w1.get t
-      w1.on t fun g' => insertAnchor g' g.anchors.length (some x)
+    let r0 := readInto {} (ds[0]?.getD {})
+    let r1 := readInto {} (ds[1]?.getD {})
+    let r2 := readInto {} (ds[2]?.getD {})
+    let rf := appendGuideDicts {} fg
+    let w1 := { w with conts := [r0.1, r1.1, r2.1, rf.1] }
+    -- files with a repeated identifier: outside the domain (glifLib refuses to write or read them)
+    if r0.2.1 ≠ .ok ∨ r1.2.1 ≠ .ok ∨ r2.2.1 ≠ .ok ∨ rf.2 ≠ .ok then (w1, .err .assertion)
+    else
+      match thenAnchor with
+      | none => (w1, .ok)
+      | some (t, x) =>
+        let g := w1.get t
+        w1.on t fun g' => insertAnchor g' g.anchors.length (some x)
 
 def run (w : World) : List Op → World
   | [] => w
